@@ -126,6 +126,11 @@ def gen_link(rng, blocks):
         some = rng.choice([a for rows in link['inters'].values() for r in rows for a in r['atoms']])
         link['atoms_attr'].append([list(some), {'replace': {'atype': rng.choice(ATYPES), 'mass': '14.027'}}])
     used = sorted({a for rows in link['inters'].values() for r in rows for a in r['atoms']})
+    if rng.random() < 0.15 and used:
+        # an atom selected by the type its block gives it (whatever another link replaces it with later or earlier)
+        some = rng.choice(used)
+        if not any(tuple(pn) == tuple(some) for pn, _ in link['atoms_attr']):
+            link['atoms_attr'].append([list(some), {'atype': rng.choice(ATYPES)}])
     if rng.random() < 0.2 and len(used) >= 2:
         a, b = rng.sample(used, 2)
         if a[0] != b[0]:
@@ -175,6 +180,28 @@ def gen_arrangement_ff(rng):
                       'inters': {'angles': [{'atoms': [('', 'BB'), ('+', 'BB'), ('++', 'BB')],
                                              'params': ['2', f'{rng.uniform(90, 180):.3f}', f'{rng.uniform(5, 90):.3f}'], 'meta': {}}]}})
     return {'blocks': blocks, 'links': links}, names
+
+
+def gen_replace_select_ff(rng):
+    """one residue type; a chain link that replaces the type of an atom, and another link (angle over three residues, or a
+    second bond term) that selects that same atom by the type its block gives it.  The two links define different
+    interactions; in either order of definition both apply."""
+    t0, t1 = rng.sample(ATYPES, 2)
+    blocks = [{'name': 'RA', 'nrexcl': 1, 'inters': {'bonds': [{'atoms': [0, 1], 'params': ['1', '0.300', '1000.000'], 'meta': {}}]},
+               'atoms': [{'name': 'BB', 'atype': t0, 'cg': 1, 'charge': '0.0', 'mass': '72.0'},
+                         {'name': 'SC', 'atype': 'C1', 'cg': 2, 'charge': '0.0', 'mass': '36.0'}]}]
+    who = rng.choice(['', '+'])
+    replacing = {'resnames': ['RA'], 'edges': [], 'meta': {}, 'atoms_attr': [[[who, 'BB'], {'replace': {'atype': t1, 'mass': '14.027'}}]],
+                 'inters': {'bonds': [{'atoms': [('', 'BB'), ('+', 'BB')], 'params': ['1', '0.350', '1250.000'], 'meta': {}}]}}
+    selecting = {'resnames': ['RA'], 'edges': [], 'meta': {}, 'atoms_attr': [[[rng.choice(['', '+', '++']), 'BB'], {'atype': t0}]],
+                 'inters': {'angles': [{'atoms': [('', 'BB'), ('+', 'BB'), ('++', 'BB')], 'params': ['2', f'{rng.uniform(90, 180):.3f}', '25.000'], 'meta': {}}]}}
+    links = [replacing, selecting]
+    if rng.random() < 0.5:
+        links.reverse()
+    nres = rng.randint(3, 6)
+    g = {'nres': nres, 'shape': 'path', 'resnames': ['RA'] * nres, 'edges': [(i, i + 1) for i in range(nres - 1)], 'r0': rng.choice([1, 1, 4]),
+         'keys': list(range(nres)), 'order': list(range(nres)), 'edge_order': list(range(nres - 1)), 'flip': [False] * (nres - 1)}
+    return {'blocks': blocks, 'links': links}, g
 
 
 def gen_arrangement_graph(rng, names):
